@@ -140,7 +140,8 @@ def obligations(tier):
            Ob("seed_contract[int,draw-in-after_initialization]", ob_seed_contract(True, "after"), 120),
            Ob("two_runs[C,hooks-draw]", ob_two_runs(("C",), 2, 1, (), hook_draws=True), 600)]
     for names in (("C",), ("D3",), ("P3",), ("C", "B1")):
-        obs.append(Ob(f"two_runs[{'+'.join(names)},plain]", ob_two_runs(names, 2, 1, ()), 600))
+        n = 1 if names == ("P3",) and not th else 2          # (two permutation agents: 6^4 stream orders)
+        obs.append(Ob(f"two_runs[{'+'.join(names)},plain,n={n}]", ob_two_runs(names, n, 1, ()), 600))
     obs.append(Ob("two_runs[C,selection,n=2]", ob_two_runs(("C",), 2, 1, ("selection",)), 900))
     obs.append(Ob("two_runs[C,partner,n=3]", ob_two_runs(("C",), 3, 1, ("partner",)), 1800))   # n=2: partner is forced
     if th:
